@@ -11,14 +11,14 @@ QUICK = [
     ("chk_parent_child", 60), ("chk_parent_inverse", 60), ("chk_parent_root_rejected", 30), ("chk_subtile_closed_form", 90), ("chk_subtile_step", 60),
     ("chk_postfix_pos_level", 40), ("chk_generate_pos_root", 30), ("chk_postfix_corner_level", 60),
     ("chk_generate_tiles_filtered_top", 90),
-    ("chk_subpyramid_generic", 120), ("chk_position_filter", 120), ("chk_subpyramid_toast", 150), ("chk_subpyramid_toast_userfilter", 170),
+    ("chk_subpyramid_generic", 120), ("chk_position_filter", 120), ("chk_subpyramid_toast", 150), ("chk_subpyramid_toast_userfilter", 170), ("chk_subpyramid_toast_userfilter_ancestors", 240),
     ("chk_reducer_step", 120), ("chk_reducer_apex_stop", 60), ("chk_reducer_public_sequence", 150),
     ("chk_combine_leaf_and_live_counts", 40), ("chk_combine_operations", 60), ("chk_invariant_preserved", 90),
     ("chk_walk_serial_step", 60), ("chk_visit_leaves_serial_step", 40),
     ("chk_closed_form_recurrence", 60), ("chk_unfiltered_counts", 150),
     ("chk_e2e_depth1", 120),
 ]
-THOROUGH = QUICK + [("chk_subpyramid_toast_userfilter_wide", 900), ("chk_e2e_depth2", 900), ("chk_e2e_depth2_apex1", 900), ("chk_e2e_depth2_apex2_q0", 900), ("chk_e2e_depth2_apex2_q1", 900), ("chk_e2e_depth2_apex2_q2", 900), ("chk_e2e_depth2_apex2_q3", 900), ("chk_e2e_depth2_pair02", 1500), ("chk_e2e_depth2_pair3", 1700)]
+THOROUGH = QUICK + [("chk_subpyramid_toast_userfilter_ancestors_wide", 900), ("chk_subpyramid_toast_userfilter_wide", 900), ("chk_e2e_depth2", 900), ("chk_e2e_depth2_apex1", 900), ("chk_e2e_depth2_apex2_q0", 900), ("chk_e2e_depth2_apex2_q1", 900), ("chk_e2e_depth2_apex2_q2", 900), ("chk_e2e_depth2_apex2_q3", 900), ("chk_e2e_depth2_pair02", 1500), ("chk_e2e_depth2_pair3", 1700)]
 
 
 def declare(run):
